@@ -35,6 +35,30 @@ def check(assertions, rlimit, timeout_ms):
     return r, s
 
 
+_NL_CACHE = {}
+
+
+def _nonlinear(t):
+    """does the term contain a product / quotient of two non-numeral terms (or a power)?"""
+    i = t.get_id()
+    r = _NL_CACHE.get(i)
+    if r is not None:
+        return r[0]
+    k = t.decl().kind() if z3.is_app(t) else None
+    res = False
+    if k in (z3.Z3_OP_MUL,):
+        res = sum(0 if (z3.is_rational_value(c) or z3.is_int_value(c)) else 1 for c in t.children()) >= 2
+    elif k in (z3.Z3_OP_DIV, z3.Z3_OP_IDIV, z3.Z3_OP_MOD, z3.Z3_OP_REM):
+        d = t.arg(1)
+        res = not (z3.is_rational_value(d) or z3.is_int_value(d))
+    elif k == z3.Z3_OP_POWER:
+        res = True
+    if not res:
+        res = any(_nonlinear(c) for c in t.children())
+    _NL_CACHE[i] = (res, t)
+    return res
+
+
 class VC:
     __slots__ = ("name", "pc", "goal", "kind", "site", "verdict", "model", "seconds", "path_id", "reason")
 
@@ -111,6 +135,9 @@ class Path:
         if why:
             self.assumption_log[why] = self.assumption_log.get(why, 0) + 1
 
+    def note_assumption(self, why):
+        self.assumption_log[why] = self.assumption_log.get(why, 0) + 1
+
     def push_assume(self, t):
         self.assumes.append(t)
 
@@ -145,10 +172,19 @@ class Path:
                 cache[key] = (True, pcs, extra)
                 return True
         STATS.feas_calls += 1
-        r, s = check(pcs + [extra], FEAS_RLIMIT, FEAS_TIMEOUT_MS)
+        if self.symtab.get("__feas_linear__"):
+            # relational obligations carry nonlinear facts (products of mirrored sqrt prices) that make feasibility queries slow:
+            # decide feasibility on the LINEAR part of the path condition only.  Dropping conjuncts over-approximates feasibility,
+            # so at worst an infeasible path is explored (its obligations are then discharged against the full path condition).
+            lin = [a for a in pcs + [extra] if not _nonlinear(a)]
+            r, s = check(lin, FEAS_RLIMIT, FEAS_TIMEOUT_MS)
+            if r == z3.sat and len(lin) != len(pcs) + 1:
+                s = None      # a model of the relaxation is not a witness of the full path condition
+        else:
+            r, s = check(pcs + [extra], FEAS_RLIMIT, FEAS_TIMEOUT_MS)
         if r == z3.unknown:
             STATS.unknown_feas += 1
-        if r == z3.sat and self._model is None:
+        if r == z3.sat and self._model is None and s is not None:
             try:
                 self._model = s.model()
                 self._model_ok = {a.get_id(): a for a in pcs}
@@ -354,6 +390,8 @@ class Exploration:
         self.config = config or {}
         self.max_paths = max_paths
         self.symtab = {}
+        if self.config.get("feas_linear"):
+            self.symtab["__feas_linear__"] = True
         self.paths = 0
         self.vcs = []
         self.unsupported = []
